@@ -121,12 +121,140 @@ namespace vh
 
    inline std::size_t g_apply0_end = 0;  // set by the control just before Action::apply0
 
+   // State objects (C13).  Nesting depth = number of live state objects at construction (they are locals of
+   // match() frames, hence LIFO); uid = construction counter.  Every event is logged.
+   inline int g_sdepth = 0;
+   inline long g_suid = 0;
+
+   struct vstate_base
+   {
+      int depth = 0;
+      long uid = 0;
+   };
+
+   inline int state_depth()
+   {
+      return 0;
+   }
+
+   template< typename S, typename... Ss >
+   int state_depth( const S& s, const Ss&... /*unused*/ )
+   {
+      if constexpr( std::is_base_of_v< vstate_base, S > ) {
+         return s.depth;
+      }
+      else {
+         return -1;
+      }
+   }
+
+   inline void state_ctor( vstate_base& s, const int outer )
+   {
+      s.depth = ++g_sdepth;
+      s.uid = ++g_suid;
+      emit( "sc", s.depth );
+      if( outer != s.depth - 1 ) {
+         g_out += " BAD-OUTER";
+      }
+      g_out += '\n';
+   }
+
+   inline void state_dtor( vstate_base& s )
+   {
+      emit( "sd", s.depth );
+      if( s.depth != g_sdepth ) {
+         g_out += " BAD-ORDER";
+      }
+      g_out += '\n';
+      --g_sdepth;
+   }
+
+   template< typename In, typename... Outer >
+   void state_success( vstate_base& s, const In& in, const Outer&... outer )
+   {
+      emit( "ss", s.depth );
+      emit_pos( in.position() );
+      char b[ 32 ];
+      std::snprintf( b, sizeof b, " %d", state_depth( outer... ) );
+      g_out += b;
+      g_out += '\n';
+   }
+
+   // constructed from ( in, outer states... ) — the first branch of state<> / change_state<>
+   struct vstate_c : vstate_base
+   {
+      template< typename In, typename... Outer, typename = decltype( std::declval< const In& >().position() ) >
+      explicit vstate_c( const In& /*unused*/, Outer&&... outer )
+      {
+         state_ctor( *this, state_depth( outer... ) );
+      }
+      vstate_c( const vstate_c& ) = delete;
+      void operator=( const vstate_c& ) = delete;
+      ~vstate_c()
+      {
+         state_dtor( *this );
+      }
+      template< typename In, typename... Outer >
+      void success( const In& in, Outer&&... outer )
+      {
+         state_success( *this, in, outer... );
+      }
+   };
+
+   // default-constructed only — the second branch, and change_states<>
+   struct vstate_d : vstate_base
+   {
+      vstate_d()
+      {
+         state_ctor( *this, g_sdepth );
+      }
+      vstate_d( const vstate_d& ) = delete;
+      void operator=( const vstate_d& ) = delete;
+      ~vstate_d()
+      {
+         state_dtor( *this );
+      }
+      template< typename In, typename... Outer >
+      void success( const In& in, Outer&&... outer )
+      {
+         state_success( *this, in, outer... );
+      }
+   };
+
+   template< typename Tag >
+   struct act_change_state : pegtl::change_state< vstate_c >
+   {};
+
+   template< typename Tag >
+   struct act_change_states : pegtl::change_states< vstate_d >
+   {
+      template< typename In, typename... Outer >
+      static void success( const In& in, vstate_d& s, Outer&&... outer )
+      {
+         s.success( in, outer... );
+      }
+   };
+
+   template< typename Tag, template< typename... > class NewAction >
+   struct act_change_action_and_state : pegtl::change_action_and_state< NewAction, vstate_c >
+   {};
+
+   template< typename Tag, template< typename... > class NewAction >
+   struct act_change_action_and_states : pegtl::change_action_and_states< NewAction, vstate_d >
+   {
+      template< typename In, typename... Outer >
+      static void success( const In& in, vstate_d& s, Outer&&... outer )
+      {
+         s.success( in, outer... );
+      }
+   };
+
    // Action bodies; the generated code derives Action< nK > from one of these.
    template< typename Tag, typename Rule, int VetoMod, int ThrowMod, bool ThrowStd >
    struct act_apply_void
    {
-      template< typename ActionInput >
-      static void apply( const ActionInput& in )
+      template< typename ActionInput, typename... States >
+      static void apply( const ActionInput& in, States&&... /*unused*/ )
       {
          constexpr act_spec s{ VetoMod, ThrowMod, ThrowStd };
          const std::size_t b = in.position().byte;
@@ -140,8 +268,8 @@ namespace vh
    template< typename Tag, typename Rule, int VetoMod, int ThrowMod, bool ThrowStd >
    struct act_apply_bool
    {
-      template< typename ActionInput >
-      static bool apply( const ActionInput& in )
+      template< typename ActionInput, typename... States >
+      static bool apply( const ActionInput& in, States&&... /*unused*/ )
       {
          constexpr act_spec s{ VetoMod, ThrowMod, ThrowStd };
          const std::size_t b = in.position().byte;
@@ -156,7 +284,8 @@ namespace vh
    template< typename Tag, typename Rule, int VetoMod, int ThrowMod, bool ThrowStd >
    struct act_apply0_void
    {
-      static void apply0()
+      template< typename... States >
+      static void apply0( States&&... /*unused*/ )
       {
          constexpr act_spec s{ VetoMod, ThrowMod, ThrowStd };
          if( act_throws( s, vid< Tag, Rule >, g_apply0_end, g_apply0_end ) ) {
@@ -168,7 +297,8 @@ namespace vh
    template< typename Tag, typename Rule, int VetoMod, int ThrowMod, bool ThrowStd >
    struct act_apply0_bool
    {
-      static bool apply0()
+      template< typename... States >
+      static bool apply0( States&&... /*unused*/ )
       {
          constexpr act_spec s{ VetoMod, ThrowMod, ThrowStd };
          if( act_throws( s, vid< Tag, Rule >, g_apply0_end, g_apply0_end ) ) {
@@ -180,32 +310,54 @@ namespace vh
 
    // Observation control.  `match` brackets every Control< Rule >::match invocation,
    // including hidden internal:: rules; the hooks log what the library calls.
-   template< typename Tag, typename Rule, bool WithUnwind >
+   // events of the second control family (change_control / control<> scoping, C13) carry a mark after the tag
+   template< int Mark >
+   void emit_m( const char* tag, int id )
+   {
+      if constexpr( Mark == 0 ) {
+         emit( tag, id );
+      }
+      else {
+         char b[ 64 ];
+         std::snprintf( b, sizeof b, "%s%d %d", tag, Mark, id );
+         g_out += b;
+      }
+   }
+
+   template< int Mark, typename In >
+   void ev_m( const char* tag, int id, const In& in )
+   {
+      emit_m< Mark >( tag, id );
+      emit_pos( in.position() );
+      g_out += '\n';
+   }
+
+   template< typename Tag, typename Rule, bool WithUnwind, int Mark = 0 >
    struct vcontrol_base
       : pegtl::normal< Rule >
    {
       template< typename ParseInput, typename... States >
       static void start( const ParseInput& in, States&&... /*unused*/ )
       {
-         ev( "st", vid< Tag, Rule >, in );
+         ev_m< Mark >( "st", vid< Tag, Rule >, in );
       }
 
       template< typename ParseInput, typename... States >
       static void success( const ParseInput& in, States&&... /*unused*/ )
       {
-         ev( "su", vid< Tag, Rule >, in );
+         ev_m< Mark >( "su", vid< Tag, Rule >, in );
       }
 
       template< typename ParseInput, typename... States >
       static void failure( const ParseInput& in, States&&... /*unused*/ )
       {
-         ev( "fa", vid< Tag, Rule >, in );
+         ev_m< Mark >( "fa", vid< Tag, Rule >, in );
       }
 
       template< typename ParseInput, typename... States >
       [[noreturn]] static void raise( const ParseInput& in, States&&... st )
       {
-         ev( "ra", vid< Tag, Rule >, in );
+         ev_m< Mark >( "ra", vid< Tag, Rule >, in );
          pegtl::normal< Rule >::raise( in, st... );
       }
 
@@ -214,9 +366,10 @@ namespace vh
          -> decltype( Action< Rule >::apply( std::declval< const typename ParseInput::action_t& >(), st... ) )
       {
          const typename ParseInput::action_t action_input( begin, in );
-         emit( "ap", vid< Tag, Rule > );
+         emit_m< Mark >( "ap", vid< Tag, Rule > );
          emit_pos( action_input.position() );
          emit_pos( in.position() );
+         emit( "", state_depth( st... ) );
          g_out += '\n';
          return Action< Rule >::apply( action_input, st... );
       }
@@ -225,7 +378,10 @@ namespace vh
       static auto apply0( const ParseInput& in, States&&... st )
          -> decltype( Action< Rule >::apply0( st... ) )
       {
-         ev( "a0", vid< Tag, Rule >, in );
+         emit_m< Mark >( "a0", vid< Tag, Rule > );
+         emit_pos( in.position() );
+         emit( "", state_depth( st... ) );
+         g_out += '\n';
          g_apply0_end = in.position().byte;
          return Action< Rule >::apply0( st... );
       }
@@ -243,14 +399,14 @@ namespace vh
          if( g_step_budget != 0 && ++g_steps > g_step_budget ) {
             throw step_budget_exceeded{};
          }
-         emit( "E", vid< Tag, Rule > );
+         emit_m< Mark >( "E", vid< Tag, Rule > );
          g_out += ( A == pegtl::apply_mode::action ) ? " 1" : " 0";
          g_out += ( M == pegtl::rewind_mode::required ) ? " r" : " o";
          emit_pos( in.position() );
          g_out += '\n';
          try {
             const bool r = pegtl::normal< Rule >::template match< A, M, Action, Control >( in, st... );
-            emit( "X", vid< Tag, Rule > );
+            emit_m< Mark >( "X", vid< Tag, Rule > );
             g_out += r ? " 1" : " 0";
             emit_pos( in.position() );
             g_out += '\n';
@@ -260,7 +416,7 @@ namespace vh
             throw;
          }
          catch( ... ) {
-            emit( "X", vid< Tag, Rule > );
+            emit_m< Mark >( "X", vid< Tag, Rule > );
             g_out += " 2";
             emit_pos( in.position() );
             g_out += '\n';
@@ -284,6 +440,17 @@ namespace vh
    struct vcontrol_nounwind
       : vcontrol_base< Tag, Rule, false >
    {};
+
+   template< typename Tag, typename Rule >
+   struct vcontrol2
+      : vcontrol_base< Tag, Rule, true, 2 >
+   {
+      template< typename ParseInput, typename... States >
+      static void unwind( const ParseInput& in, States&&... /*unused*/ )
+      {
+         ev_m< 2 >( "uw", vid< Tag, Rule >, in );
+      }
+   };
 
    inline void describe_exception( const std::exception_ptr& p )
    {
